@@ -94,6 +94,11 @@ def write_fs(root, d, legacy=False, bundlified=False):
     with open(path, "w", encoding="utf-8") as f:
         if bundlified:
             wrapper = {"type": "bundle", "id": "bundle--d83fce45-ef58-4c6c-a3f4-1fbc32e98c6e", "objects": [d]}
+            if bundlified == "several":
+                # a hand-made file: the object asked for comes first, others follow
+                sib = dict(d)
+                sib["id"] = d["type"] + "--11111111-2222-4333-8444-555555555555"
+                wrapper["objects"] = [d, sib, dict(sib, id=d["type"] + "--11111111-2222-4333-8444-666666666666")]
             if "spec_version" not in d:
                 wrapper["spec_version"] = "2.0"      # what a 2.0 bundle written by the sink carries
             json.dump(wrapper, f)
@@ -217,6 +222,11 @@ def entry_points(d, v, tmp):
         write_fs(root, d, bundlified=True)
         return stix2.FileSystemSource(root).get(sid, version=v)
 
+    def fs_bundlified_several_get():
+        root = fs_dir()
+        write_fs(root, d, bundlified="several")
+        return stix2.FileSystemSource(root).get(sid, version=v)
+
     def fs_bundlified_query():
         root = fs_dir()
         write_fs(root, d, bundlified=True)
@@ -272,7 +282,8 @@ def entry_points(d, v, tmp):
                 ("FileSystemSink.add(bundle dict, version)", fs_sink_add_bundle_dict, "written"),
                 ("FileSystemSink.add(bundle JSON text, version)", fs_sink_add_bundle_text, "written"),
                 ("FileSystemSource.get(id, version) [bundlified file]", fs_bundlified_get, "class"),
-                ("FileSystemSource.query(id, version) [bundlified file]", fs_bundlified_query, "class")]
+                ("FileSystemSource.query(id, version) [bundlified file]", fs_bundlified_query, "class"),
+                ("FileSystemSource.get(id, version) [bundle file with several objects]", fs_bundlified_several_get, "class")]
         if v is not None and "spec_version" not in d:
             # the wrapper's own spec_version property does not outrank the version the caller names
             eps += [("MemoryStore.add(bundle dict with spec_version, version)", mem_store_add_bundle20_dict, "class"),
